@@ -53,6 +53,69 @@ pub fn chrono_format(fmt: &str, v: &V) -> Result<Result<String, ()>, String> {
     Ok(r.map(|_| buf).map_err(|_| ()))
 }
 
+/// the same rendering through every other public route: item lists (borrowed, collected, owned),
+/// `DelayedFormat` constructors, `write_to`, and the deprecated free functions `format::format` /
+/// `format::format_item`
+pub fn chrono_format_routes(fmt: &str, v: &V) -> Result<Vec<(&'static str, Result<String, ()>)>, String> {
+    use chrono::format::{DelayedFormat, Item, StrftimeItems};
+    let t = v.t.build()?;
+    let date = if v.kind != 1 { Some(v.day) } else { None };
+    let fo = FixedOffset::east_opt(if v.kind == 3 { v.off } else { 0 }).ok_or("harness: offset")?;
+    // wall-clock date/time as the item formatter receives them
+    let (nd, nt): (Option<chrono::NaiveDate>, Option<chrono::NaiveTime>) = match v.kind {
+        0 => (Some(conv::date(v.day)), None),
+        1 => (None, Some(t)),
+        _ => (if cal::in_range_day(v.day) { Some(conv::date(v.day)) } else { None }, Some(t)),
+    };
+    let mut out: Vec<(&'static str, Result<String, ()>)> = vec![];
+    if date.is_some() && nd.is_none() {
+        return Ok(out); // headroom wall date: not constructible outside DateTime
+    }
+    let off = if v.kind == 3 { Some((fo.to_string(), fo)) } else { None };
+    struct Shim<'a> { nd: Option<chrono::NaiveDate>, nt: Option<chrono::NaiveTime>, off: Option<(String, FixedOffset)>, items: &'a [Item<'a>], each: bool }
+    impl std::fmt::Display for Shim<'_> {
+        #[allow(deprecated)]
+        fn fmt(&self, f: &mut std::fmt::Formatter) -> std::fmt::Result {
+            if self.each {
+                for it in self.items { chrono::format::format_item(f, self.nd.as_ref(), self.nt.as_ref(), self.off.as_ref(), it)?; }
+                Ok(())
+            } else {
+                chrono::format::format(f, self.nd.as_ref(), self.nt.as_ref(), self.off.as_ref(), self.items.iter())
+            }
+        }
+    }
+    let render = |name: &'static str, items: &[Item<'_>], out: &mut Vec<(&'static str, Result<String, ()>)>| -> Result<(), String> {
+        let mk = || match &off { Some((_, o)) => DelayedFormat::new_with_offset(nd, nt, o, items.iter()), None => DelayedFormat::new(nd, nt, items.iter()) };
+        let mut a = String::new();
+        let r = call(name, || write!(a, "{}", mk()))?;
+        out.push((name, r.map(|_| a).map_err(|_| ())));
+        let mut b = String::new();
+        let r = call("DelayedFormat::write_to", || mk().write_to(&mut b))?;
+        out.push(("write_to", r.map(|_| b).map_err(|_| ())));
+        Ok(())
+    };
+    // borrowed, lazily parsed
+    let lazy: Vec<Item<'_>> = call("StrftimeItems::new", || StrftimeItems::new(fmt).collect())?;
+    render("items (lazy)", &lazy, &mut out)?;
+    match call("StrftimeItems::parse", || StrftimeItems::new(fmt).parse())? {
+        Ok(items) => render("items (parse)", &items, &mut out)?,
+        Err(_) => out.push(("items (parse)", Err(()))),
+    }
+    match call("StrftimeItems::parse_to_owned", || StrftimeItems::new(fmt).parse_to_owned())? {
+        Ok(items) => {
+            render("items (parse_to_owned)", &items, &mut out)?;
+            for each in [false, true] {
+                let shim = Shim { nd, nt, off: off.clone(), items: &items, each };
+                let mut a = String::new();
+                let r = call("format::format / format_item", || write!(a, "{shim}"))?;
+                out.push((if each { "format::format_item" } else { "format::format" }, r.map(|_| a).map_err(|_| ())));
+            }
+        }
+        Err(_) => out.push(("items (parse_to_owned)", Err(()))),
+    }
+    Ok(out)
+}
+
 pub fn model_val(v: &V) -> Val {
     Val {
         day: if v.kind != 1 { Some(v.day) } else { None },
@@ -111,8 +174,14 @@ impl SubCheck for Format {
                     return Err(format!("format({:?}) on {v:?} printed {s:?}; it must fail (unknown specifier or a field the value does not have)", c.fmt));
                 }
             }
-            Out::Text(e) => {
-                ensure_eq!(got, Ok(e), "format({:?}) on {v:?}", c.fmt);
+            Out::Text(ref e) => {
+                ensure_eq!(got, Ok(e.clone()), "format({:?}) on {v:?}", c.fmt);
+            }
+        }
+        // every other public route writes the same text (or fails as well)
+        if exp != Out::Unspecified {
+            for (route, r) in chrono_format_routes(&c.fmt, v)? {
+                ensure_eq!(r, got, "format({:?}) on {v:?} through {route} vs the format() method", c.fmt);
             }
         }
         let _ = known::active("");
